@@ -2,6 +2,7 @@
    Model: Model/Journal.v (+ Tracer.v jop); specification: Model/SolLayout.v. *)
 From Verif Require Import Base.Bytes Model.Journal Model.SolLayout Model.KeyTree Model.Tracer
   Proofs.Journal_proofs Proofs.KeyTree_proofs.
+From Verif Require Import Gen.GenProps Gen.G09.
 Open Scope N_scope.
 
 (** value journal: for every storage word and every (offset, width) inside the word, the recorded
@@ -69,3 +70,9 @@ Proof.
     exfalso. vm_compute in Hi. lia.
   - vm_compute. reflexivity.
 Qed.
+
+(** Tie to the source: every declaration this model mirrors (Gen/Pins.v, group 9) still has the digest
+    of the version the model was written against (regenerated from /repo on every run). *)
+Theorem C09_source_reviewed : group_ok 9 = true.
+Proof. exact gen_group_9. Qed.
+Print Assumptions C09_source_reviewed.
